@@ -159,7 +159,12 @@ class Scheduler:
     def build(self):
         cfg = self.cfg
         self.pool = Pool(None, retry=cfg.get('retry', True), close_timeout=2)
-        for i in range(cfg['workers']):
+        self.add_workers(cfg['workers'])
+
+    def add_workers(self, n):
+        cfg = self.cfg
+        for _ in range(n):
+            i = len(self.workers)
             self.gates.append(queue.Queue())
             self.held.append([])
             self.alive.append(True)
@@ -167,10 +172,10 @@ class Scheduler:
             w = self.pool.add_worker(cls, target=self.make_target(i), sched=self, index=i, set_names=False)
             self.workers.append(w)
 
-    def source(self):
+    def source(self, base=0):
         n = self.cfg['inputs']
         per_worker = self.cfg.get('per_worker_callable')
-        it = iter(range(n))
+        it = iter(range(base, base + n))
         if per_worker:
             def src(worker):
                 x = next(it)        # StopIteration ends the run's input, as documented
@@ -366,28 +371,44 @@ class Scheduler:
                     return True
                 kwargs['enqueue_fn'] = enqueue_fn
             self.pool_thread = threading.get_ident()
-            self.running = True
-            try:
-                ret = self.pool.run(self.source(), **kwargs)
-                out['outcome'] = 'returned'
-                out['ret'] = ret
-            except PoolError as e:
-                out['outcome'] = 'PoolError'
-                out['partial'] = e.partial_results
-            except HangDetected as e:
-                out['outcome'] = 'hang'
-                out['detail'] = str(e)
-            except InvariantBroken as e:
-                out['outcome'] = 'invariant'
-                out['detail'] = str(e)
-                out['tb'] = traceback.format_exc()[-1500:]
-            except BaseException as e:  # noqa
-                out['outcome'] = 'internal:' + type(e).__name__
-                out['detail'] = repr(e)[:300]
-                out['tb'] = traceback.format_exc()[-1500:]
-            self.running = False
-            out['alive_at_end'] = [w._child.is_alive() for w in self.workers]
-            out['closed_at_end'] = sorted(self.index_of(w) for w in self.pool._closed)
+            out['runs'] = []
+            for ri in range(cfg.get('runs', 1)):
+                base = ri * 100
+                if ri > 0:
+                    # a further run on the same pool: fresh workers are added (as a user would after a failed run)
+                    self.add_workers(cfg['workers'])
+                    self.drawn, self.lost, self.answered = [], [], []
+                    self.sync_points = 0
+                    self.log.append(('next-run', ri))
+                rec = {'run': ri, 'inputs': list(range(base, base + cfg['inputs']))}
+                self.running = True
+                try:
+                    ret = self.pool.run(self.source(base), **kwargs)
+                    rec['outcome'] = 'returned'
+                    rec['ret'] = ret
+                except PoolError as e:
+                    rec['outcome'] = 'PoolError'
+                    rec['partial'] = e.partial_results
+                except HangDetected as e:
+                    rec['outcome'] = 'hang'
+                    rec['detail'] = str(e)
+                except InvariantBroken as e:
+                    rec['outcome'] = 'invariant'
+                    rec['detail'] = str(e)
+                    rec['tb'] = traceback.format_exc()[-1500:]
+                except BaseException as e:  # noqa
+                    rec['outcome'] = 'internal:' + type(e).__name__
+                    rec['detail'] = repr(e)[:300]
+                    rec['tb'] = traceback.format_exc()[-1500:]
+                self.running = False
+                rec['alive_at_end'] = [w._child.is_alive() for w in self.workers]
+                rec['closed_at_end'] = sorted(self.index_of(w) for w in self.pool._closed)
+                rec['drawn'], rec['lost'] = list(self.drawn), list(self.lost)
+                out['runs'].append(rec)
+                self.pool._map_guard = False
+                if rec['outcome'] not in ('returned', 'PoolError'):
+                    break
+            out.update({k: v for k, v in out['runs'][-1].items() if k != 'run'})
         finally:
             self.running = False
             self.free_run = True
@@ -406,7 +427,22 @@ class Scheduler:
 
 
 def judge(cfg, out):
-    """Offline oracle over one scheduled run. Returns list of (prop, key, what)."""
+    """Offline oracle over one scheduled execution (one or more runs on the same pool)."""
+    v = []
+    for rec in out.get('runs') or [out]:
+        sub = dict(out)
+        sub.update(rec)
+        base = rec.get('run', 0) * 100
+        for (prop, key, what) in judge_run(cfg, sub, base):
+            if rec.get('run', 0) > 0:
+                key += ':later-run-on-same-pool'
+                what = 'run %d on the same pool: %s' % (rec['run'] + 1, what)
+            v.append((prop, key, what))
+    return v
+
+
+def judge_run(cfg, out, base=0):
+    """Oracle for one Pool.run; inputs are base..base+n-1."""
     v = []
     oc = out['outcome']
     retry = cfg.get('retry', True)
@@ -431,13 +467,13 @@ def judge(cfg, out):
         else:
             got = sorted(r[1] for r in ret)
             if retry:
-                if got != list(range(n)):
-                    v.append(('C07', 'result-multiset', 'run returned %s for inputs 0..%d (missing %s, duplicated %s)' % (
-                        got, n - 1, sorted(set(range(n)) - set(got)), sorted(x for x in set(got) if got.count(x) > 1))))
+                if got != list(range(base, base + n)):
+                    v.append(('C07', 'result-multiset', 'run returned %s for inputs %d..%d (missing %s, foreign or duplicated %s)' % (
+                        got, base, base + n - 1, sorted(set(range(base, base + n)) - set(got)), sorted(x for x in set(got) if got.count(x) > 1 or x not in range(base, base + n)))))
             else:
                 if len(set(got)) != len(got):
                     v.append(('C08', 'noretry-duplicate-result', 'results %s' % got))
-                if any(x not in range(n) for x in got):
+                if any(x not in range(base, base + n) for x in got):
                     v.append(('C08', 'noretry-foreign-result', 'results %s' % got))
                 lost = set(x for _, x in out['lost'])
                 # 'or was being handed': the pool's enqueue hit a worker that was already dead
@@ -452,7 +488,7 @@ def judge(cfg, out):
             got = sorted(r[1] for r in part)
             if len(set(got)) != len(got):
                 v.append(('C08', 'partial-duplicate-result', 'partial_results %s' % got))
-            if any(x not in range(n) or x in poison for x in got):
+            if any(x not in range(base, base + n) or x in poison for x in got):
                 v.append(('C08', 'partial-foreign-result', 'partial_results %s' % got))
         if not refuse and any(out['alive_at_end']):
             alive = [i for i, a in enumerate(out['alive_at_end']) if a]
